@@ -97,6 +97,25 @@ def run_lc(ctx, prop, emit_cfgs, mc_cfgs, driver_args, clean_cfgs=(), what=""):
         for lab in labels:
             ctx.known(c.kf_text("C08", lab))
     ctx.extra["known_finding_cases"] = len(v.known)
+    if not v.violations:
+        def corrupt(evs):
+            if evs[0]["hdr"].get("prepop"):
+                return False
+            for e in evs:
+                if prop == "C05" and e["ev"] == "out" and e["idx"] == 1:
+                    e["idx"] = 0
+                    return True
+                if prop == "C06" and e["ev"] == "out":
+                    e["visible"] = False
+                    return True
+                if prop == "C07" and e["ev"] == "table" and e["t"]:
+                    e["t"][0]["nr"] += 1
+                    return True
+                if prop == "C08" and e["ev"] == "table" and e["t"] and evs[0]["hdr"]["kind"] == "clean":
+                    e["t"][0]["end"] += 1
+                    return True
+            return False
+        c.binding_selftest(ctx, "field", "LcTrace.tla", trace, consts, corrupt, max_cases=60, skip=set(v.known))
     ctx.assumptions = ["TLC 1.8.0 / CommunityModules are correct", "evmap refresh semantics (a reader sees an entry after refresh())",
                        "driver projection: id renumbering relative to the smallest id of the case, field equality, tick conversion",
                        "1 tick = 1 s scaling preserves all threshold comparisons (values at and next to every threshold are in the alphabets)"]
